@@ -384,7 +384,8 @@ class ResponseHandler(BaseProtocol, DataQueue[tuple[RawResponseMessage, StreamRe
 
             if self._skip_payload or message.code in EMPTY_BODY_STATUS_CODES:
                 self.feed_data((message, EMPTY_PAYLOAD))
-                if message.code >= 200:
+                # 101 ends the HTTP exchange like a final response does.
+                if message.code >= 200 or message.code == 101:
                     self._exchange_open = False
             else:
                 self.feed_data((message, payload))
